@@ -6,6 +6,12 @@ from . import error
 from . import utils
 
 
+# every field spelled out: what is left out is taken from decimal.DefaultContext, which a host may have changed
+PV_CONTEXT = decimal.Context(prec=60, rounding=decimal.ROUND_HALF_EVEN, Emin=decimal.MIN_EMIN, Emax=decimal.MAX_EMAX,
+                             capitals=1, clamp=0, flags=[],
+                             traps=[decimal.InvalidOperation, decimal.DivisionByZero, decimal.Overflow])
+
+
 @dispatcher.register_for('PV')
 def PV(rate, periods, payment, future=None, type=None):
     if future is None:
@@ -26,13 +32,13 @@ def PV(rate, periods, payment, future=None, type=None):
     # every formula has a weak spot: (1+rate)**periods - 1 cancels for small rates, expm1/log1p
     # multiply their rounding by periods*log(1+rate) (hundreds of units in the last place for large
     # growth factors), and 1+rate itself is rounded unless rate is a small dyadic number.
-    with decimal.localcontext() as context:
+    # (in a context of its own making: the precision, rounding and trapped signals of the calling
+    # thread's context are the host's business and must not reach into the result)
+    with decimal.localcontext(PV_CONTEXT) as context:
         exact = [decimal.Decimal(x) for x in (rate, periods, payment, future, type)]
         rate_, periods_, payment_, future_, type_ = exact
         # enough digits for 1 + rate to keep those of a tiny rate
         context.prec = 60 + max(0, -rate_.adjusted())
-        context.Emax = decimal.MAX_EMAX
-        context.Emin = decimal.MIN_EMIN
         try:
             compound = (1 + rate_) ** periods_
             result = ((1 - compound) / rate_ * payment_ * (1 + rate_ * type_) - future_) / compound
